@@ -31,7 +31,7 @@ LEVEL_TEXT = ("Held on every call of every generated history of this run (20-60 
 LEVEL_NOTE = ("Side effects are visible only through argument/global/RNG digests and CPython audit events; an effect that changes "
               "none of these is out of reach. Results are compared after canonicalisation (numpy scalars -> Python scalars, arrays "
               "with dtype and shape).")
-PLAN = {"quick": dict(shards=16, budget=160), "thorough": dict(shards=32, budget=500)}
+PLAN = {"quick": dict(shards=16, budget=160), "thorough": dict(shards=16, budget=500)}
 RULE = ("Histories of 20-60 calls drawn from encode / decode / repair_dna / set_vt / the four converters / calculus helpers / "
         "find_vertices / connect_valid_graph / connect_coding_graph / approximate_capacity / calculate_intersection_score / "
         "create_random_shuffles / the representation converters / leaf and vertex queries / path_matching / remove_useless / "
